@@ -515,9 +515,15 @@ def main(path):
             if check('invariant(entry) ' + n, t, pre) is False:
                 entry_ok = False
                 notes.append(f'entry state violates invariant {n}')
+    # conditions of the declared raise clauses speak about the entry state: evaluated before the real code runs
+    raise_cond = {}
+    for exc, cond, clauses in rp['raises']:
+        if cond is not None:
+            raise_cond[(exc, cond)] = check(f'raises {exc} iff', cond, pre)
     print('entry state:', 'self =', describe(self_o), ' args =', {k: describe(v) for k, v in args.items()})
     # ---- run the real code
     outcome, result = 'return', None
+    raised_in_neighbour = False
     try:
         if rp['kind'] == 'getter':
             result = getattr(self_o, mname)
@@ -532,6 +538,17 @@ def main(path):
     except Exception as e:  # the real code raised
         outcome = type(e).__name__
         print('raised', outcome + ':', str(e)[:200])
+        # where?  In the code of the object under test, or inside another (real) object that the verifier treats
+        # through its contract / as an external call that returns normally
+        tb, owner = e.__traceback__, None
+        while tb is not None:
+            loc = tb.tb_frame.f_locals
+            if 'self' in loc:
+                owner = loc['self']
+            tb = tb.tb_next
+        if owner is not None and self_o is not None and owner is not self_o:
+            raised_in_neighbour = True
+            print(f'(raised inside another object: {type(owner).__name__})')
     graph2 = reachable(graph + [result])
     env2 = dict(env)
     env2['result'] = result
@@ -543,7 +560,7 @@ def main(path):
             if check('ensures ' + n, t, post) is False:
                 violations.append(f'postcondition {n} is false: {t}')
         for exc, cond, clauses in rp['raises']:
-            if cond is not None and check(f'raises {exc} iff', cond, pre) is True:
+            if cond is not None and raise_cond.get((exc, cond)) is True:
                 violations.append(f'returned normally although ({cond}) held at entry: {exc} expected')
         for n, t in rp.get('invariants', []):
             if check('invariant ' + n, t, post) is False:
@@ -556,7 +573,7 @@ def main(path):
             else:
                 notes.append(f'the real code raised {outcome}, which the contract does not declare (not the failed obligation)')
         for exc, cond, clauses in decl:
-            if cond is not None and check(f'raises {exc} iff', cond, pre) is False:
+            if cond is not None and raise_cond.get((exc, cond)) is False:
                 violations.append(f'raised {exc} although not ({cond})')
             for n, t in clauses:
                 if t.startswith('@frame:'):
@@ -569,6 +586,10 @@ def main(path):
         print('note:', x)
     print(f"TALLY outcome={outcome} entry_legal={entry_ok} clauses_true={tally['true']} clauses_false={tally['false']} "
           f"not_evaluable={tally['not_evaluable']}")
+    if violations and entry_ok and raised_in_neighbour and os.environ.get('PYVC_DIFFERENTIAL'):
+        print('INCONCLUSIVE: the exception came out of the real code of another object (a contained part / neighbour), which '
+              'the verifier handles through that object\'s contract or as an external call assumed to return normally')
+        return 0
     if violations and entry_ok:
         for v in violations:
             print('VIOLATED natively:', v)
